@@ -261,3 +261,126 @@ Definition find (fuel : nat) (root : node) (rtl : bool) (start prevlen : Z) : re
        scan_from fuel (S (Z.to_nat (tlen e))) root rtl p0.
 
 End Sem.
+
+(* ------------------------------------------------------------------------------------------
+   The same search in continuation-passing style: [semk t s k] is the first success of [k] over
+   the results of [t] from [s] in priority order.  This is what the extracted code runs (it never
+   materialises result lists); Proofs/SpecProofs.v proves  semk t s k = first_some k (sem t s). *)
+Section SemK.
+Variable e : env.
+
+Definition kont := st -> res (option st).
+
+Fixpoint first_some (k : kont) (l : list st) : res (option st) :=
+  match l with
+  | [] => Ok None
+  | x :: l' => do r <- k x ; match r with Some y => Ok (Some y) | None => first_some k l' end
+  end.
+
+Definition or_else (a : res (option st)) (b : unit -> res (option st)) : res (option st) :=
+  do r <- a ; match r with Some y => Ok (Some y) | None => b tt end.
+
+Definition k_first : kont := fun s => Ok (Some s).
+
+Fixpoint iterk (fuel : nat) (body : st -> kont -> res (option st)) (lazy : bool) (limit : Z)
+         (s : st) (mark count : Z) (k : kont) : res (option st) :=
+  match fuel with
+  | O => Fuel
+  | S f =>
+      let again := fun (_ : unit) => body s (fun s' => iterk f body lazy limit s' (pos s) (count + 1) k) in
+      if lazy then
+        if count <? 0 then again tt
+        else or_else (k s) (fun _ => if (count <? limit) && negb (pos s =? mark) then again tt else Ok None)
+      else
+        if (limit <=? count) || ((pos s =? mark) && (0 <=? count)) then k s
+        else or_else (again tt) (fun _ => if 0 <=? count then k s else Ok None)
+  end.
+
+Fixpoint semk (fuel : nat) (t : node) (s : st) (k : kont) : res (option st) :=
+  match fuel with
+  | O => Fuel
+  | S f =>
+    let rec := semk f in
+    match t with
+    | NChar kd o c =>
+        if (0 <? avail e o (pos s)) && char_test e kd c (next_char e o (pos s))
+        then k (with_pos s (pos s + dir o)) else Ok None
+    | NCharLoop kd l o c m n => first_some k (sem_charloop e kd l o c m n s)
+    | NMulti o str => first_some k (sem_multi e o str s)
+    | NRef o g => first_some k (sem_ref e o g s)
+    | NAnchor a => if anchor_ok e a (pos s) then k s else Ok None
+    | NNothing => Ok None
+    | NEmpty => k s
+    | NBump => k s
+    | NConcat _ l =>
+        (fix seq (l : list node) (s : st) (k : kont) : res (option st) :=
+           match l with
+           | [] => k s
+           | x :: l' => rec x s (fun s' => seq l' s' k)
+           end) l s k
+    | NAlternate _ l =>
+        (fix alt (l : list node) : res (option st) :=
+           match l with
+           | [] => Ok None
+           | x :: l' => or_else (rec x s k) (fun _ => alt l')
+           end) l
+    | NLoop lazy _ m n r =>
+        let limit := if n =? INF then INF else n - m in
+        if m =? 0 then iterk f (rec r) lazy limit s (-1) 0 k
+        else rec r s (fun s' => iterk f (rec r) lazy limit s' (pos s) (1 - m) k)
+    | NCapture _ g u r =>
+        if u =? -1 then
+          rec r s (fun s' => k {| pos := pos s'; caps := cap_push g (span (pos s) (pos s')) (caps s') |})
+        else
+          rec r s (fun s' =>
+            match cap_get u (caps s') with
+            | [] => Ok None
+            | top :: _ =>
+                let c1 := cap_pop u (caps s') in
+                k {| pos := pos s';
+                     caps := if g =? -1 then c1 else cap_push g (balance_span (pos s) (pos s') top) c1 |}
+            end)
+    | NGroup r => rec r s k
+    | NPosLook _ r =>
+        do x <- rec r s k_first ;
+        match x with Some s' => k (with_pos s' (pos s)) | None => Ok None end
+    | NNegLook _ r =>
+        do x <- rec r s k_first ;
+        match x with Some _ => Ok None | None => k s end
+    | NAtomic r =>
+        do x <- rec r s k_first ;
+        match x with Some s' => k s' | None => Ok None end
+    | NBackRefCond _ g yes no =>
+        if is_matched g (caps s) then rec yes s k
+        else match no with Some n => rec n s k | None => k s end
+    | NExprCond _ c yes no =>
+        do x <- rec c s k_first ;
+        match x with
+        | Some s' => rec yes (with_pos s' (pos s)) k
+        | None => match no with Some n => rec n s k | None => k s end
+        end
+    end
+  end.
+
+Definition attemptk (fuel : nat) (root : node) (p : Z) : res (option st) :=
+  semk fuel root {| pos := p; caps := [] |} k_first.
+
+Fixpoint scank_from (fuel : nat) (n : nat) (root : node) (rtl : bool) (p : Z) : res (option st) :=
+  match n with
+  | O => Ok None
+  | S n' =>
+      do r <- attemptk fuel root p ;
+      match r with
+      | Some s => Ok (Some s)
+      | None => if (if rtl then p <=? 0 else tlen e <=? p) then Ok None
+                else scank_from fuel n' root rtl (if rtl then p - 1 else p + 1)
+      end
+  end.
+
+Definition findk (fuel : nat) (root : node) (rtl : bool) (start prevlen : Z) : res (option st) :=
+  let stop := if rtl then 0 else tlen e in
+  if (prevlen =? 0) && (start =? stop) then Ok None
+  else let p0 := if prevlen =? 0 then (if rtl then start - 1 else start + 1) else start in
+       scank_from fuel (S (Z.to_nat (tlen e))) root rtl p0.
+
+End SemK.
